@@ -106,11 +106,11 @@ def renderBound : Option Nat → List Char
   | none => []
   | some n => (toString n).toList
 
-def renderSlicePart : Option Nat × Option Nat → List Char
-  | (some a, some b) => if a = b then (toString a).toList else (toString a).toList ++ ':' :: (toString b).toList
-  | (a, b) => renderBound a ++ ':' :: renderBound b
+def renderSlicePart : SliceEntry → List Char
+  | .idx n => (toString n).toList
+  | .range a b => renderBound a ++ ':' :: renderBound b
 
-def renderSlice (sl : List (Option Nat × Option Nat)) : List Char :=
+def renderSlice (sl : List SliceEntry) : List Char :=
   '[' :: (List.intercalate [','] (sl.map renderSlicePart)) ++ [']']
 
 def renderPieceS : Piece → List Char
